@@ -1105,6 +1105,7 @@ def _ray_bvh(
   geomgroup: vec6,
   flg_static: bool,
   bodyexclude: wp.array[int],
+  nflexgeom: int,
   bvh_id: wp.uint64,
   group_root: wp.array[int],
   enabled_geom_ids: wp.array[int],
@@ -1129,7 +1130,10 @@ def _ray_bvh(
   bounds_nr = int(0)
 
   while wp.bvh_query_next(query, bounds_nr, min_dist):
-    bvh_local = bounds_nr - (worldid * ngeom)
+    # the scene BVH stores ngeom geoms followed by nflexgeom flex primitives per world
+    bvh_local = bounds_nr - (worldid * (ngeom + nflexgeom))
+    if bvh_local >= ngeom:
+      continue  # flex primitive: not a geom
     geomid = enabled_geom_ids[bvh_local]
 
     dist, normal = _ray_geom_mesh_bvh(
@@ -1315,6 +1319,7 @@ def rays(
         geomgroup,
         flg_static,
         bodyexclude,
+        rc.bvh_nflexgeom,
         rc.bvh_id,
         rc.group_root,
         rc.enabled_geom_ids,
